@@ -216,6 +216,9 @@ def identity_laws(run: core.Run) -> None:
             "nan": one({"gain": [float("nan"), 1.0]}),
             "nan-text": one({"gain": ["NaN", 1.0]}),
             "inf-text": one({"gain": ["Infinity", "-Infinity"]}),
+            # text with a backslash before r / n (a LaTeX label, a Windows-style path): not a line break
+            "backslash-r": one({"label": ["\\rho", "data\\runs.csv"]}),
+            "backslash-n": one({"label": ["\\nho", "data\\nuns.csv"]}),
         })
         seen_ids: Dict[str, str] = {}
         for name, rs in plans.items():
